@@ -22,6 +22,25 @@ P15_SIG = "fin:group-with-duplicate-level-masking-missing-level-kept"
 F2_SIG = "grouping-by-sorted-adjacency-misgroups-partially-ordered-values"
 F3_SIG = "fin:length-drop-after-pairing-leaves-incomplete-group"
 F4_SIG = "best:grouping-by-sorted-adjacency-splits-cells-of-partially-ordered-values"
+F5_SIG = "ma:sliding-window-stays-nan-after-a-non-finite-value"
+NAN, INF = float("nan"), float("inf")
+
+
+def nonfinite(y):
+    return isinstance(y, float) and (y != y or y in (INF, -INF))
+
+
+def nf_mean(w, before=()):
+    """mean of the window `w` with IEEE semantics for nan/+inf (exact Fraction otherwise).
+    `before` (only for classifying C18-F5): the values that left the window — a prefix-sum implementation still carries them"""
+    if any(isinstance(y, float) and y != y for y in list(w) + list(before)):
+        return NAN
+    if any(y == INF for y in before):
+        return NAN                              # inf - inf
+    if any(y == INF for y in w):
+        return INF
+    w = [Fraction(y) for y in w]
+    return Fraction(sum(w), len(w))
 
 
 # ----------------------------------------------------------------------------- values
@@ -88,6 +107,8 @@ def reward(case, y):
         return bool(y % 2)
     if rk == "dyadic":
         return y / 4
+    if rk == "nf":                       # a diverged learner: now and then a NaN or +inf reward
+        return NAN if y == 9 else (INF if y == -3 else y)
     return y
 
 
@@ -177,7 +198,9 @@ def run_case(case):
 
 
 def tofl(p):
-    """[num,den] -> int or float (exact: generated values are small dyadics)"""
+    """[num,den] -> int or float (exact: generated values are small dyadics); "nan" / "inf" -> that float"""
+    if isinstance(p, str):
+        return float(p)
     return p[0] if p[1] == 1 else p[0] / p[1]
 
 
@@ -280,10 +303,12 @@ class Direct:
             evs = OrderedDict((t, rows[:n]) for t, rows in evs.items() if len(rows) >= n)
         return evs
 
-    def window_mean(self, ys, span, i):
+    def window_mean(self, ys, span, i, sticky=False):
         lo = 0 if (span is None) else max(0, i + 1 - span)
-        w = [Fraction(y) for y in ys[lo:i + 1]]
-        return Fraction(sum(w), len(w))
+        return nf_mean(ys[lo:i + 1], ys[:lo] if sticky else ())
+
+    def has_nonfinite(self):
+        return any(nonfinite(r[self.iy]) for r in self.irows)
 
     # -- only used to *classify* a mismatch as finding C18-F2: what grouping by sorted()+adjacency (the code's
     #    path whenever sorted() does not raise) gives when the keys are only partially ordered (frozensets)
@@ -351,7 +376,7 @@ class Direct:
                 res[k] = out[k]
         return res
 
-    def raw(self, evs, x, l, span):
+    def raw(self, evs, x, l, span, sticky=False):
         """{(lkey,xkey): [values over evaluations in table order]}"""
         out = OrderedDict()
         for t, rows in evs.items():
@@ -360,7 +385,7 @@ class Direct:
             if x == "index":
                 for i, r in enumerate(rows):
                     sp = None if (span is None or span >= len(ys)) else span
-                    out.setdefault((lk, (r[self.ii],)), []).append(self.window_mean(ys, sp, i))
+                    out.setdefault((lk, (r[self.ii],)), []).append(self.window_mean(ys, sp, i, sticky))
             else:
                 xk = self.key(x, t)
                 sp = None if not span else span
@@ -461,6 +486,8 @@ def table_to_dict(rec, st, d):
 
 def same_number(impl, frac):
     try:
+        if isinstance(frac, float):                    # nan / inf expected
+            return (impl != impl) if frac != frac else (float(impl) == frac)
         return float(impl) == frac.numerator / frac.denominator
     except Exception:  # noqa
         return False
@@ -620,7 +647,7 @@ class C18(Property):
     rule = ("Results with 1-4 environments (8%: 5-9 environments, 2-4 learners, 1-3 evaluators, lengths up to 27, ids up to 39; "
             "40%: parameter column names containing/extending the special names — fold_index, index2, my_learner_id, evaluator_id2, rewards …; "
             "duplicate parameter values; value types str/int/None/bool/float/''/tuple and, rarely, frozenset), 1-3 learners, "
-            "1-2 evaluators, missing triples, ragged lengths 1-7, rewards small ints (also 0/1, bool, dyadic floats), rows "
+            "1-2 evaluators, missing triples, ragged lengths 1-7, rewards small ints (also 0/1, bool, dyadic floats, and with NaN/+inf at random positions), rows "
             "sometimes handed to the constructor in reverse order; chains of 1-4 steps of where_fin (n in None/'min'/0/k, l and p ids, "
             "parameter columns, lists, swapped roles), where, where_best (l,p,n,full_l,full_p), raw_contrast (one or several labels per side of a learner column, x also not determined by p, x index / "
             "environment columns, p environment / (environment,evaluator) / an environment column, all spans), raw_learners (x index/parameter columns, span None/0..6, "
@@ -652,6 +679,11 @@ class C18(Property):
         "exactly with the model's rational; exponential moving averages are compared at 1e-9 relative tolerance unless alpha is dyadic",
     ]
     assumptions = [
+        "rewards NaN / +inf (a diverged learner) are inside the statement: the directly computed average is then NaN / inf (IEEE), a "
+        "silently finite value is a wrong average; such cases are (B)-only (the model's rewards are integers). -inf is not generated "
+        "(fmean raises ValueError on inf + -inf while a float sum gives nan); where_best with non-finite means is only checked for "
+        "table consistency (comparisons with NaN are not documented); a raw_learners cell holding the single value NaN cannot be told "
+        "from its own `[nan]` no-data placeholder and is not compared",
         "interaction index column is 1..len within every evaluation (what TransactionResult and from_logged_envs produce)",
         "ids are unique within a parameter table; l and p are both given or both None, and name id or parameter columns "
         "(or full_name); a level value equal to the string 'x' (the name of raw_learners' own first column) is not generated",
@@ -729,7 +761,7 @@ class C18(Property):
                 "envs": rng.shuffle(envs), "lrns": rng.shuffle(lrns), "vals": vals, "evals": evals, "extra": rng.chance(0.3)}
         if rng.chance(0.15):
             case["rev"] = True
-        rk = rng.choice([None, None, None, None, "bin", "bool", "dyadic"])
+        rk = rng.choice([None, None, None, None, "bin", "bool", "dyadic", "nf"])
         if rk:
             case["rk"] = rk
         return case
@@ -879,6 +911,9 @@ class C18(Property):
             w = [q(0 if rng.chance(z) else Fraction(rng.randint(1, 6), rng.choice([1, 1, 2]))) for _ in range(n)]
             if rng.chance(0.04):
                 w = w[:-1] if w else [q(1)]
+        if w is None and vs and rng.chance(0.15):
+            for _ in range(rng.choice([1, 1, 2])):
+                vs[rng.below(len(vs))] = rng.choice(["nan", "nan", "inf"])
         return {"kind": "ma", "vs": vs, "span": span, "w": w}
 
     def generate(self, rng, tier):
@@ -979,6 +1014,12 @@ class C18(Property):
                        steps=[{"op": "where_fin", "n": 2, "l": "learner_id", "p": "environment_id"}]))
         cs.append(dict(base, vals=[[0]], evals=[[0, 1, 0, [1]], [1, 0, 0, [1]]],
                        steps=[{"op": "where_fin", "n": None, "l": "learner_id", "p": "environment_id"}]))
+        cs.append({"kind": "ma", "vs": [q(1), "nan", q(3), q(5), q(7)], "span": None, "w": None})
+        cs.append({"kind": "ma", "vs": [q(1), "inf", q(3), q(5), q(7)], "span": 9, "w": None})
+        cs.append({"kind": "ma", "vs": [q(1), "nan", q(3), q(5), q(7)], "span": 2, "w": None})
+        nfb = dict(base, vals=[[0]], rk="nf", evals=[[0, 0, 0, [1, 9, 3, 5]], [0, 1, 0, [2, 2, 4, 4]], [1, 0, 0, [1, 2, 3, 6]], [1, 1, 0, [0, 1, -3, 2]]])
+        cs.append(dict(nfb, steps=[{"op": "raw_learners", "x": x, "l": "learner_id", "p": "environment_id", "span": sp, "fresh": True}
+                                   for x in ("environment_id", "data", "index") for sp in (None, 1, 2, 4)]))
         for vs, span, w in (([1, 2, 3, 4, 5], 2, None), ([1, 2, 3, 4, 5], None, None), ([1, 2, 3], 3, "exp"), ([1, 2, 3, 4], 2, [1, 0, 2, 1]),
                             ([1, 2, 3, 4], None, [1, 2, 3, 4]), ([1, 2, 3], 1, [0, 1, 1]), ([1, 2], 0, None), ([], 2, None), ([5], 1, None),
                             ([1, 2, 3, 4], 3, [0, 0, 0, 1]), ([1, 2, 3], 5, None), ([3, 1, 2, 6, 0, 0, 1], 3, None)):
@@ -1023,7 +1064,14 @@ class C18(Property):
             best_a_ok = False
             if "err" in rec:
                 tags.append("err:%s:%s" % (op, rec["err"]))
-            if op == "where_best":
+            nf_here = any(nonfinite(r[pre["int"][0].index("reward")]) for r in pre["int"][1]) if "reward" in pre["int"][0] else False
+            if nf_here:
+                tags.append("rewards:non-finite")
+            if op == "where_best" and nf_here:
+                tags.append("best:skipped-non-finite")       # comparisons with NaN means: nothing documented
+                if "post" in rec:
+                    check_tables(rec["post"], pre, fails, op, False)
+            elif op == "where_best":
                 nt, best_a_ok = self.check_best(st, rec, fails, tags, coder)
                 nontrivial = nontrivial or nt
             if op == "where_fin":
@@ -1275,8 +1323,11 @@ class C18(Property):
         if set(got) != set(exp):            # by ==/hash, as the code's own dict (0 == False == 0.0)
             return False
         for k in exp:
-            g = sorted(([float(a), float(b)] for a, b in got[k]))
-            e = sorted(([float(a.numerator / a.denominator), float(b.numerator / b.denominator)] for a, b in exp[k]))
+            def tok(v):
+                f = float(v) if isinstance(v, (int, float)) else v.numerator / v.denominator
+                return "nan" if f != f else repr(float(f))
+            g = sorted([tok(a), tok(b)] for a, b in got[k])
+            e = sorted([tok(a), tok(b)] for a, b in exp[k])
             if g != e:
                 return False
         return True
@@ -1288,6 +1339,9 @@ class C18(Property):
             tags.append("contrast:several-labels")
         if st["x"] == "index" and st.get("span") == 0:
             tags.append("contrast:undefined-span0")
+            return False
+        if st["x"] == "index" and st.get("span") and Direct(rec["pre"]).has_nonfinite():
+            tags.append("contrast:windowed-non-finite(F5)")       # see C18-F5; raw_learners reports it
             return False
         exp, d = self.contrast_expected(st, rec["pre"])
         if rec.get("err") == "KeyError" and st["l"] == "learner_id":
@@ -1335,7 +1389,7 @@ class C18(Property):
         tags.append("raw:p=%s" % ("none" if p is None else "given"))
         d = Direct(pre, st.get("y", "reward"))
 
-        def expected(legacy, sim=None):
+        def expected(legacy, sim=None, sticky=False):
             if not d.irows:
                 return None
             if p:
@@ -1347,7 +1401,7 @@ class C18(Property):
                     return None
             else:
                 evs = d.evals
-            return d.raw(evs, x, l, span) if sim is None else d.raw_sorted_adjacent(evs, x, l, span)
+            return d.raw(evs, x, l, span, sticky) if sim is None else d.raw_sorted_adjacent(evs, x, l, span)
         if x == "index" and span == 0 and any(len(r) > 0 for r in d.evals.values()):
             tags.append("raw:undefined-span0")       # the mean of the last 0 values is not defined: only (A) applies
             return False
@@ -1360,12 +1414,18 @@ class C18(Property):
             if "err" in rec:
                 return False
             got = table_to_dict(rec, st, d)
+            # a cell holding the single value NaN cannot be told from raw_learners' own "no data" placeholder [nan]
+            e = OrderedDict((k, v) for k, v in e.items() if not (len(v) == 1 and isinstance(v[0], float) and v[0] != v[0]))
             if set(got) != set(e):
                 return False
             return all(len(got[k]) == len(e[k]) and all(same_number(a, b) for a, b in zip(got[k], e[k])) for k in e)
         if not matches(exp):
             partial = d.col_has_partial_order(p) or d.col_has_partial_order(l)
-            if p and matches(expected(True)):
+            if x == "index" and span and d.has_nonfinite() and matches(expected(False, sticky=True)):
+                tags.append("f5")
+                fails.append(F("B", "%s: after a NaN/inf reward every later windowed average is NaN although its window holds finite rewards only "
+                               "(moving_average takes differences of running sums: nan-nan, inf-inf); a direct computation gives %s" % (call, fmt(exp)), F5_SIG))
+            elif p and matches(expected(True)):
                 tags.append("p15")
                 fails.append(F("B", "%s reports averages over a %s-group with a duplicate %s level and a missing one" % (call, p, l), P15_SIG))
             elif partial and any(matches(expected(False, sim=rule)) for rule in (True, False)):
@@ -1528,7 +1588,37 @@ class C18(Property):
         fails.append(F("A", "%s: implementation %s, model %s" % (call, ci[:500], canonj(ans["model"])[:500]), sig))
 
     # ---- moving_average
+    def eval_ma_nonfinite(self, case):
+        """unweighted moving_average over values with NaN / +inf: (B) only, IEEE-aware textbook value"""
+        fails, tags = [], ["op:moving_average", "ma:non-finite"]
+        vs = [tofl(p) for p in case["vs"]]
+        span = case.get("span")
+        out = run_case(case)[0]
+        call = "moving_average(%s, span=%r)" % (vs, span)
+        if span == 0 and vs:
+            return {"fails": fails, "nontrivial": False, "tags": tags + ["ma:undefined"], "impl": str(out), "model": None}
+
+        def textbook(sticky):
+            res = []
+            for i in range(len(vs)):
+                lo = 0 if (span is None or span >= len(vs)) else max(0, i + 1 - span)
+                res.append(nf_mean(vs[lo:i + 1], vs[:lo] if sticky else ()))
+            return res
+        exp = textbook(False)
+        if "err" in out:
+            fails.append(F("B", "%s raised %s; textbook value %s" % (call, out["err"], [str(x) for x in exp]), "ma:raises-%s:non-finite" % out["err"]))
+        elif not (len(out["ok"]) == len(exp) and all(same_number(a, b) for a, b in zip(out["ok"], exp))):
+            st = textbook(True)
+            if span and len(out["ok"]) == len(st) and all(same_number(a, b) for a, b in zip(out["ok"], st)):
+                tags.append("f5")
+                fails.append(F("B", "%s returned %s: every window after the non-finite value is NaN; textbook sliding mean %s" % (call, out["ok"], [str(x) for x in exp]), F5_SIG))
+            else:
+                fails.append(F("B", "%s returned %s; textbook definition gives %s" % (call, out["ok"], [str(x) for x in exp]), "ma:differs:non-finite"))
+        return {"fails": fails, "nontrivial": len(vs) >= 3, "tags": tags, "impl": str(out), "model": None}
+
     def eval_ma(self, case, driver):
+        if any(isinstance(p, str) for p in case["vs"]):
+            return self.eval_ma_nonfinite(case)
         fails, tags = [], []
         vs = [unq(p) for p in case["vs"]]
         span, w = case.get("span"), case.get("w")
@@ -1652,7 +1742,7 @@ class C18(Property):
                  "from coba.results.core import Result", "from coba.context import CobaContext, NullLogger", "CobaContext.logger = NullLogger()",
                  "ints = [['environment_id','learner_id','evaluator_id','index','reward'%s]]" % (",'z'" if case.get("extra") else ""),
                  "for e,l,v,ys in %r:" % (case["evals"],),
-                 "    for i,y in enumerate(ys,1): ints.append([e,l,v,i,%s]%s)" % ({"bin": "y%2", "bool": "bool(y%2)", "dyadic": "y/4"}.get(case.get("rk"), "y"), "+[100*e+10*l+v+1000*i]" if case.get("extra") else ""),
+                 "    for i,y in enumerate(ys,1): ints.append([e,l,v,i,%s]%s)" % ({"bin": "y%2", "bool": "bool(y%2)", "dyadic": "y/4", "nf": "(float('nan') if y==9 else float('inf') if y==-3 else y)"}.get(case.get("rk"), "y"), "+[100*e+10*l+v+1000*i]" if case.get("extra") else ""),
                  "ints[1:] = ints[:0:-1]" if case.get("rev") else "pass",
                  "base = r = Result(%r, %r, %r, ints)" % (envs, lrns, vals)]
         for st in case["steps"]:
